@@ -103,6 +103,29 @@ Case keymsg_case(Rng& r, int param) {
   return c;
 }
 
+// messages whose length does not fit 32 bits (a read-only zero-page mapping, see op_hugemsg): one operation in each of a
+// few runs so that they land on different workers; lengths on both sides of 2^32 chosen so that the low 32 bits are small,
+// or the sum with a partially filled sponge block wraps
+void huge_message_ops(Plan& p, bool thorough, const char* sub) {
+  static const uint64_t lens[] = {(1ULL << 32) - 1, (1ULL << 32) + 5,  (1ULL << 32) - 16,  (1ULL << 32) + 40, (1ULL << 32),       (1ULL << 32) + 167,
+                                  (1ULL << 33) + 1, (1ULL << 32) - 2,  (1ULL << 32) + 135, (1ULL << 32) - 137, (1ULL << 32) + 1, (1ULL << 32) - 169};
+  if (p.run >= 12)
+    return;
+  int prim = primary_param(p.run);
+  bool l1 = prim == 1 || prim == 7 || prim == 10; // SHAKE128 sets: cheapest per byte
+  bool dosign = std::string(sub) == "sign";
+  if (!thorough && (!l1 || (dosign && prim != 1) || G.variant.rfind("u64", 0) == 0)) // quick: the first pass only (the sponge is the same code in the uint64 builds)
+    return;
+  Rng r = rng_for(p.seed, {H("huge"), p.run});
+  Case c;
+  c.set("op", "hugemsg").set("param", prim).set("surf", (int64_t)r.below(2)).set("node", pick_node(r)).set("sub", sub).set("kpat", "rand").setu("kseed", r.next() >> 20);
+  c.setu("mlen", lens[(p.run + p.seed) % 12]);
+  if (!thorough) // quick: one length of each class (wrap below 2^32, zero low bits above it, small low bits above it)
+    c.setu("mlen", prim == 1 ? (dosign ? (1ULL << 32) + 3 : (1ULL << 32) - 1) : prim == 7 ? (1ULL << 32) + 5 : (1ULL << 32) + 40);
+  c.set("wd", dosign ? 900 : 450); // CPU seconds: absorbing 4 GiB takes 10-15 s per pass, three to four times that under sanitizers
+  p.tasks[0].push_back(c);
+}
+
 // ---------------------------------------------------------------------------------------------- per property
 void gen_c01(Plan& p, bool thorough) {
   Rng r = rng_for(p.seed, {H("C01"), p.run});
@@ -121,6 +144,7 @@ void gen_c01(Plan& p, bool thorough) {
       add_forced(c, ro, *model::params(param));
     p.tasks[0].push_back(c);
   }
+  huge_message_ops(p, thorough, "sign");
 }
 void gen_c02(Plan& p, bool thorough) {
   Rng r = rng_for(p.seed, {H("C02"), p.run});
@@ -160,6 +184,7 @@ void gen_c02(Plan& p, bool thorough) {
       c.set("place", "heap");
     p.tasks[0].push_back(c);
   }
+  huge_message_ops(p, thorough, "verify");
   if (COST[prim] <= 6 || thorough || (p.run / 12) % 4 == 0) {
     Case c = km[0];
     c.set("op", "verify").set("surf", (int64_t)r.below(2)).set("node", pick_node(r)).set("wf", "nearmiss").setu("bit", r.next() >> 8).setu("n", r.next() >> 40);
@@ -304,6 +329,7 @@ void gen_c05(Plan& p, bool thorough) {
     env_faults(c, ro, 40);
     p.tasks[0].push_back(c);
   }
+  huge_message_ops(p, thorough, "verify");
 }
 // a declared capacity far beyond the real buffer: values whose low 16, 31 or 32 bits are zero or small, and the type limits
 static std::string declared_cap(Rng& r) {
